@@ -30,6 +30,8 @@ void harness_validate(void)
 	}
 	tl_snapshot(&T, &S0);
 	VASSUME(tl_sinv(&S0, TE));
+	hv_table = &T;
+	hv_scramble(); /* C16: no lock is held between calls */
 
 	/* the query */
 	struct lrtr_ip_addr q;
@@ -103,6 +105,11 @@ void harness_validate(void)
 			}
 		}
 	}
+#ifdef VL_HAVOC
+	VASSERT(vl_rd_sections[vl_slot(&T.lock)] == 1 && vl_wr_sections[vl_slot(&T.lock)] == 0 && hv_unlocked_root_changes == 0,
+		"C16 validate: exactly one read section covers everything the call reads, nothing is modified");
+#endif
+	hv_restore();
 	tl_snapshot(&T, &S1);
 	VASSERT(tl_scount(&S1, &w) == tl_scount(&S0, &w) && tl_stotal(&S1) == tl_stotal(&S0),
 		"validate: table unchanged");
